@@ -3,8 +3,8 @@
 cd "$(dirname "$0")" || exit 1
 mkdir -p out evidence
 rc=0
-for f in spec/*.tla; do
-  ( cd spec && tla-sany "$(basename "$f")" >/dev/null 2>&1 ) || { echo "SANY failed on $f"; rc=1; }
+for f in spec/*.tla spec/apalache/*.tla; do
+  ( cd "$(dirname "$f")" && tla-sany "$(basename "$f")" >/dev/null 2>&1 ) || { echo "SANY failed on $f"; rc=1; }
 done
 /venv/bin/python -c "import sys; sys.path[:0]=['/verif','/repo']; import harness.main, PyXAB; print('harness ok, PyXAB from', PyXAB.__file__)" || rc=1
 exit $rc
